@@ -82,6 +82,13 @@ def run(ck, P):
                     ok = False
             ok = ok and n > 0
             why = "auto-close descriptor of a PS/FD source (%d path(s))" % n if ok else "user descriptor closed without the AUTOCLOSE / PS|FD tests"
+            # every valid descriptor is closed — 0 included: the only value excluded is the "none" marker -1
+            vn = S(a0)
+            extra = [(a_, p_) for (a_, p_) in (facts or ()) if re.search(r"\b%s\b" % re.escape(vn), a_) and (a_, p_) != ("(%s == -1)" % vn, False)
+                     and not a_.startswith("(%s =" % vn)]
+            if ok and extra:
+                ok = False
+                why = "the auto-close is additionally conditioned on %s: a valid descriptor outside that range (0, when stdin was closed) is never closed" % fmt_facts(frozenset(extra))
         ck.ob("C20.1-WHO-CLOSES", f.site("close(%s)" % arg), ok, "%s at line %d: %s" % (S(ev.e), ev.line, why))
     fc = list(P.calls_to({"fclose"}))
     ck.ob("C20.1-WHO-CLOSES", "Lib:fclose sites", all(e.fn.raw.get("ctor") for e in fc), "fclose only in the logging destructor: %s" % [e.fn.name for e in fc], nontrivial=False)
@@ -242,6 +249,29 @@ def run(ck, P):
           "%d releasing path(s) of deregister_ctx_src remove the source from the poll set first" % nd if badd is None else
           "deregister_ctx_src drops a context source without poll_set_new_evt(…, RM): nothing else removes a module-less source, its timer descriptor "
           "and poll record leak and the poll set keeps a pointer to freed memory", path=rules.fmt_path(dc, badd) if badd else None)
+    # a descriptor the library just obtained is not forgotten: in the creating helpers, nothing overwrites the field that holds it
+    # (with -1 or anything else) without closing it first
+    for f in P.funcs:
+        if not f.name.startswith("create_") or f.unit != "Lib/core/poll/cmn_linux.c":
+            continue
+        opens = [e for e in f.events() if e.kind == "assign" and e.rhs is not None and strip(e.rhs)["k"] == "call" and strip(e.rhs).get("callee") in OPENERS]
+        for op_ in opens:
+            lv = S(op_.lhs)
+            bado = None
+            for path in f.paths():
+                evs = list(rules.path_events(f, path))
+                if op_ not in evs:
+                    continue
+                after_ = evs[evs.index(op_) + 1:]
+                for i_, e in enumerate(after_):
+                    if e.kind == "assign" and S(e.lhs) == lv:
+                        if not any(x.kind == "call" and x.callee == "close" and S(x.args[0]) == lv for x in after_[:i_]):
+                            bado = (e, path)
+                        break
+            ck.ob("C20.4-RELEASE", f.site("%s kept or closed" % lv), bado is None,
+                  "the descriptor stored in %s is never overwritten without being closed" % lv if bado is None else
+                  "%s overwrites %s (line %d) while it still holds the descriptor just obtained from %s(): that descriptor is leaked — every later removal only "
+                  "sees the new value" % (f.name, lv, bado[0].line, strip(op_.rhs)["callee"]), path=rules.fmt_path(f, bado[1]) if bado else None)
     dtor_like = {"src_priv_dtor", "poll_destroy"}
     for ev in closes:
         f = ev.fn
